@@ -12,8 +12,14 @@ THEOREMS = ['segIntegral_closed', 'segIntegral_zero', 'firstOrderEntry_exact',
             'firstOrderEntry_zero_dt', 'firstOrderEntry_neg', 'ff_call_wiring',
             'ff_generalized_def', 'ff_fidelity_def', 'ff_fidelity_is_trace', 'ff_hermitian',
             'ff_gen_hermitian', 'ff_posSemidef', 'ff_diag_nonneg', 'trace_Useg', 'cm_entry',
-            'segment_trace_integral', 'cm_segment_form', 'cm_segment_form_error']
-LEAN_MODULES = ['FFVerif.Props.C01', 'FFVerif.Props.C01Seg']
+            'segment_trace_integral', 'cm_segment_form', 'cm_segment_form_error',
+            # bound and reflection symmetry for the code as it is, masked branch included (C01Bound)
+            'firstOrderEntry_norm_le', 'firstOrderEntry_norm_masked', 'firstOrderEntry_norm_zero',
+            'maskThr_nonneg', 'cm_entry_eq_trace', 'cm_entry_norm_le', "cm_entry_norm_le'",
+            'ff_fid_eq_frob_sq', 'ff_fid_le', 'ff_fid_re_le', 'ff_fid_offdiag_le',
+            'herm_sandwich_apply', 'cm_neg_omega', 'cm_neg_omega_map', 'ff_neg_omega',
+            'ff_neg_omega_diag', 'ff_gen_neg_omega', 'firstOrderEntry_zero_x', 'ff_fid_le_sharp']
+LEAN_MODULES = ['FFVerif.Props.C01', 'FFVerif.Props.C01Seg', 'FFVerif.Props.C01Bound']
 PINS = ['pinControlMatrixFromScratch']
 GEN_SITES = ['const:numeric._first_order_integral',
              'einsum:numeric_calculate_control_matrix_from_scratch_0',
